@@ -253,11 +253,18 @@ impl S4 {
         };
         let before = self.idle.events_handled.load(Ordering::SeqCst);
         self.steps += 1;
+        // (a step that never returns is seen by the blocked-step supervisor, `crate::watch`)
+        crate::watch::enter_step(match kind {
+            Step::Turn => "Turn",
+            Step::Event => "Event",
+            Step::Consume => "Consume",
+        });
         let r = guarded(|| match kind {
             Step::Turn => router.verif_turn().map_err(|e| e.to_string()),
             Step::Event => Ok(router.verif_event_step()),
             Step::Consume => Ok(router.verif_consume_step()),
         });
+        crate::watch::leave_step();
         let after = self.idle.events_handled.load(Ordering::SeqCst);
         let mut handled = vec![];
         for _ in before..after {
